@@ -1109,6 +1109,7 @@ func (in *Interp) builtin(st *State, fi int, ci *CallInfo, instr ssa.Instruction
 		} else if res != nil {
 			st.abs[res] = Abs{K: Nil}
 		}
+		in.emit(st, fi, Event{Kind: EvCall, Instr: instr, Call: ci, Res: res})
 		return res
 	case "close":
 		in.emit(st, fi, Event{Kind: EvClose, Instr: instr, Addr: ci.Args[0], Call: ci})
